@@ -34,18 +34,21 @@ BUDGET_S = {"quick": 300, "thorough": 1800}
 MIN_EVALS = {"quick": 3000, "thorough": 20000}
 PORT = 6053
 
-LITERAL = ("v4", "v6", "v6scope", "v6scope-same-text")   # last: the same link-local text for every host, only the numeric scope differs
+LITERAL = ("v4", "v6", "v6scope", "v6scope-same-text", "v6-ula-scoped", "v6-sitelocal-scoped")   # last: the same link-local text for every host, only the numeric scope differs
 NAMES = ("bare", "local", "local.", "sub.local", "sub.local.")   # (a name below a sub-domain of .local is a .local name too)
 FQDN = ("fqdn", "fqdn.", "fqdn-local-inside")
 UNEXPRESSIBLE = ("bare-64-byte-label", "local-control-char")   # bare / .local names that mDNS cannot express: the lookup fails before any request -> OS resolver
 MDNS_FOUND = ("v4", "v6", "both", "multi", "incomplete-both", "same-text-two-scopes")   # incomplete: addresses received but no SRV/TXT within the timeout (request reports False)
 MDNS_NOTHING = ("none", "raise")
 OS_KINDS = ("v4", "v6", "both", "empty", "gaierror", "unknown-family", "v6-scoped", "v6-flow")
-PROVISIONS = ("no-manager", "empty-manager", "supplied-async", "supplied-sync", "library-precreated", "empty-manager+create-fault")
+PROVISIONS = ("no-manager", "empty-manager", "supplied-async", "supplied-sync", "library-precreated", "empty-manager+create-fault",
+              "supplied-async-closed-by-app")   # the application shut its own instance down before this resolve: nothing answers on it, nothing new is created
 
 
 def host_str(form: str, i: int) -> str:
-    return {"v4": f"10.{i}.9.9", "v6": f"fd00:{i}::99", "v6scope": f"fe80::{i}:99%{i + 2}", "v6scope-same-text": f"fe80::1c2d:3eff:fe4f:5a6b%{i + 2}", "bare": f"dev{i}", "local": f"dev{i}.local",
+    return {"v4": f"10.{i}.9.9", "v6": f"fd00:{i}::99", "v6scope": f"fe80::{i}:99%{i + 2}", "v6scope-same-text": f"fe80::1c2d:3eff:fe4f:5a6b%{i + 2}",
+            "v6-ula-scoped": f"fd12:3456:{i}::10%{i + 2}", "v6-sitelocal-scoped": f"fec0::{i}:9%4",   # a numeric scope on an address outside fe80::/10 is used verbatim too
+            "bare": f"dev{i}", "local": f"dev{i}.local",
             "local.": f"dev{i}.local.", "sub.local": f"dev{i}.iot.local", "sub.local.": f"dev{i}.corp.lan.local.",
             "fqdn-local-inside": f"dev{i}.local.example.com", "bare-64-byte-label": f"dev{i}" + "x" * 60, "local-control-char": f"dev{i}\x07.local", "fqdn": f"dev{i}.example.com", "fqdn.": f"dev{i}.example.com."}[form]
 
@@ -104,7 +107,7 @@ def tup(ip: str) -> tuple[Any, ...]:
     return ("v4", ip, PORT)
 
 
-def reference(hosts: list[tuple[str, str, str]], mdns_available: bool = True) -> dict[str, Any]:
+def reference(hosts: list[tuple[str, str, str]], mdns_available: bool = True, mdns_answers: bool = True) -> dict[str, Any]:
     """Reference resolver written from the statement. hosts = [(form, mdns kind, os kind)].
     mdns_available=False: no mDNS socket can be opened at all (every name falls back to the OS resolver, no mDNS request is ever made)."""
     blocks: list[list[list[tuple[Any, ...]]]] = []   # per host: ordered groups, each group compared as a multiset
@@ -119,7 +122,7 @@ def reference(hosts: list[tuple[str, str, str]], mdns_available: bool = True) ->
                 calls.append(("mdns", f"dev{i}"))
                 if md == "hang":
                     return {"kind": "cut", "calls": calls}
-                if md in MDNS_FOUND:
+                if md in MDNS_FOUND and mdns_answers:
                     ans = mdns_answer(md, i)
                     groups = [g for g in ([tup(x) for x in ans.get("v6", [])], [tup(x) for x in ans.get("v4", [])]) if g]
             if not groups:
@@ -185,9 +188,12 @@ def run_case(case: dict[str, Any]) -> dict[str, Any]:
         supplied = None
         mgr: Any = None
         pre = None
-        if prov == "supplied-async":
+        if prov in ("supplied-async", "supplied-async-closed-by-app"):
             supplied = world.supplied_async()
             mgr = ZeroconfManager(supplied)
+            if prov.endswith("closed-by-app"):
+                supplied.zeroconf.closed_by_app = True
+                supplied.zeroconf._close()  # noqa: SLF001
         elif prov == "supplied-sync":
             supplied = world.supplied_zeroconf()
             mgr = ZeroconfManager(supplied)
@@ -211,7 +217,7 @@ def run_case(case: dict[str, Any]) -> dict[str, Any]:
 
             C.APIConnection._connect_socket_connect = spy  # type: ignore[method-assign]  # noqa: SLF001
             kw: dict[str, Any] = {}
-            if prov in ("supplied-async", "supplied-sync"):
+            if prov in ("supplied-async", "supplied-sync", "supplied-async-closed-by-app"):
                 kw["zeroconf_instance"] = supplied
             cli = sim.client(host_list[0], PORT, None, addresses=list(host_list), **kw)
             if prov == "library-precreated":
@@ -282,7 +288,7 @@ def judge(case: dict[str, Any], o: dict[str, Any]) -> list[tuple[str, str]]:
 
     out: list[tuple[str, str]] = []
     hosts = case["hosts"]
-    ref = reference(hosts, mdns_available=not case["provision"].endswith("create-fault"))
+    ref = reference(hosts, mdns_available=not case["provision"].endswith("create-fault"), mdns_answers=not case["provision"].endswith("closed-by-app"))
     rec = o["rec"]
     ending = case.get("ending")
     direct = case["entry"] == "direct"
@@ -375,14 +381,14 @@ def judge(case: dict[str, Any], o: dict[str, Any]) -> list[tuple[str, str]]:
             break
     # ---- ownership
     for idx, origin, closes, after in o["instances"]:
-        if origin == "supplied" and closes:
+        if origin == "supplied" and closes > (1 if case["provision"].endswith("closed-by-app") else 0):
             out.append(("C20/supplied-instance-closed", f"the application's zeroconf instance #{idx} was closed {closes}x by the library"))
         if origin == "library":
             if closes > 1:
                 out.append(("C20/library-instance-closed-twice", f"library-created instance #{idx} closed {closes}x"))
             if closes == 0:
                 out.append(("C20/library-instance-leaked", f"library-created instance #{idx} never closed (after the call and manager.async_close())"))
-        if after:
+        if after and not (origin == "supplied" and case["provision"].endswith("closed-by-app")):
             out.append(("C20/instance-used-after-close", f"instance #{idx} ({origin}) used {after}x after it was closed"))
     for idx, closes in o["lib_after_call"]:
         if "again" in o:
@@ -581,8 +587,8 @@ def shard(ctx: Ctx) -> None:
             if where == "mdns" and form not in NAMES:
                 continue
             for prov in PROVISIONS:
-                if prov.endswith("create-fault"):
-                    continue   # (no mDNS request can hang when no mDNS socket exists)
+                if prov.endswith("create-fault") or prov.endswith("closed-by-app"):
+                    continue   # (no mDNS request can hang when no mDNS socket exists / nothing answers on an instance the application shut down)
                 for entry in ("direct", "client"):
                     for ending in (("cancel", 0.01), ("cancel", 1.0), ("double-cancel", 0.01), ("double-cancel", 1.0), None):
                         for second in (("v4", "-", "-"), ("bare", "both", "-")):
